@@ -254,7 +254,13 @@ def run(ctx: Ctx) -> int:
                         ("H 0\nSWAP 0 1\nX 0\nH 1\nM 0 1", "H 0\nI 1\nSWAP 0 1\nX 0\nH 1\nM 0 1"),
                         ("H 2\nT 2\nSWAP 2 5\nH 5\nCX 5 2\nM 2 5", "H 2\nT 2\nH 5\nH 5\nSWAP 2 5\nH 5\nCX 5 2\nM 2 5"),
                         ("H 0\nX_ERROR(0.25) 0\nT 0\nSWAP 0 1 2 3\nH 0 1\nM 0 1 2 3", "H 0\nX_ERROR(0.25) 0\nT 0\nTICK\nSWAP 0 1\nI 2\nSWAP 2 3\nH 0 1\nM 0 1 2 3"),
-                        ("RX 1\nSWAP 1 0\nMX 0\nM 1", "RX 1\nSWAP 0 1\nMX 0\nM 1"), ("H 0\nISWAP 0 1\nH 0\nM 0 1", "H 0\nR 1\nISWAP 0 1\nH 0\nM 0 1")]:
+                        ("RX 1\nSWAP 1 0\nMX 0\nM 1", "RX 1\nSWAP 0 1\nMX 0\nM 1"), ("H 0\nISWAP 0 1\nH 0\nM 0 1", "H 0\nR 1\nISWAP 0 1\nH 0\nM 0 1"),
+                        # a reset directly after noise on a qubit that is entangled with qubits measured later: a gate and its inverse
+                        # (or a TICK) between the noise and the reset changes nothing
+                        ("H 0\nCX 0 1\nZ_ERROR(1) 0\nR 0\nMX 1\nM 0", "H 0\nCX 0 1\nZ_ERROR(1) 0\nS 0\nS_DAG 0\nR 0\nMX 1\nM 0"),
+                        ("H 0\nCX 0 1\nZ_ERROR(0.25) 0\nRX 0\nMX 1 0", "H 0\nCX 0 1\nZ_ERROR(0.25) 0\nH 0\nH 0\nRX 0\nMX 1 0"),
+                        ("H 0\nCX 0 1\nT 1\nDEPOLARIZE1(0.375) 0\nRY 0\nMX 1\nMY 0", "H 0\nCX 0 1\nT 1\nDEPOLARIZE1(0.375) 0\nTICK\nX 0\nX 0\nRY 0\nMX 1\nMY 0"),
+                        ("H 0\nCX 0 1\nX_ERROR(0.5) 0\nR 0\nM 1 0", "H 0\nCX 0 1\nX_ERROR(0.5) 0\nSQRT_X 0\nSQRT_X_DAG 0\nR 0\nM 1 0")]:
         try:
             d1, _ = tsim_dist(tsim.Circuit(text))
             d2, _ = tsim_dist(tsim.Circuit(text2))
